@@ -265,7 +265,7 @@ def exits(body):
                     e.adt = s["adt"]
                     e.variant = s["variant"]
                     e.payload = s["ops"]
-                    if s["adt"] == "std::result::Result":
+                    if s["adt"] == "core::result::Result":
                         e.kind = "ok" if s["variant"] == "Ok" else "err"
                     else:
                         e.kind = "value"
